@@ -189,3 +189,78 @@ __CPROVER_ensures(FC_INV(self) && g_dropped == OLD(g_dropped) + 1) /*@ C08 "a di
 )
 
 UNITS = [add_invalid, has_invalid, remove_ctx, scoped_dtor, get_reset, incr]
+
+# ------------------------------------------------------------------ registration hand-off (C03): Owicki-Gries with rely steps inside the shared-access stubs
+OG = r'''
+/* ghost state of the hand-off for ONE arbitrary new context c*  (sequentially consistent interleavings, DESIGN §2.3 last paragraph) */
+bool g_in_list;        /* c* is in the manager's registry */
+bool g_flag;           /* _new_thread_context_flag */
+bool g_in_cache;       /* c* is in the backend's cache of active contexts */
+bool g_flag_stored;    /* the registering thread has stored the flag (its last step) */
+bool g_cleared, g_reloaded;   /* backend: has cleared the flag / has reloaded, within the current update */
+#define PENDING (g_in_list && !g_flag_stored)
+#define RELOADING (g_cleared && !g_reloaded)
+#define OG_INV (!(g_in_list && !PENDING && !g_flag && !RELOADING) || g_in_cache)
+bool nondet_bool(void);
+'''
+REG_PRELUDE = OG + r'''
+typedef struct TCMr { int d; } TCMr; typedef struct TCptr { int d; } TCptr;
+bool g_locked;
+/* rely: the backend may clear the flag and/or reload at any time, keeping OG_INV (proved for its own steps by unit BW.update_cache) */
+#define RELY_BACKEND() do { if (nondet_bool()) { g_flag = nondet_bool() ? g_flag : false; g_in_cache = nondet_bool(); g_cleared = nondet_bool(); g_reloaded = nondet_bool(); __CPROVER_assume(OG_INV); } } while (0)
+static inline void SPIN_lock(TCMr* s) { RELY_BACKEND(); g_locked = true; }
+static inline void SPIN_unlock(TCMr* s) { g_locked = false; }
+static inline void LIST_push_back(TCMr* s, TCptr const* tc) { __CPROVER_assert(g_locked, "C03: the registry is modified under the lock"); g_in_list = true; __CPROVER_assert(OG_INV, "C03: hand-off invariant after the registry push"); }
+static inline void FLAG_store(TCMr* s, bool v, int mo) { RELY_BACKEND(); g_flag = v; g_flag_stored = true; __CPROVER_assert(OG_INV, "C03: hand-off invariant after the flag store: a registered context is never left out of the backend's cache with the flag down"); }
+#define ATOMIC_STORE__new_thread_context_flag(s, v, mo) FLAG_store(s, v, mo)
+'''
+register = dict(
+    name='TCM.register', primary='C03', props={'C03'}, kind='S',
+    desc='ThreadContextManager::register_thread_context under interference of the backend: push under the lock, THEN raise the flag - the hand-off invariant holds after every shared access',
+    structs=[], prelude=REG_PRELUDE, enforce='TCM_register_thread_context', replace=[],
+    funcs=[dict(src=dict(header=H, cls='ThreadContextManager', name='register_thread_context'), src_params=['thread_context'], cfun='TCM_register_thread_context',
+                sig='void TCM_register_thread_context(TCMr* self, TCptr const* thread_context)', cls_c='TCM', member_fields=[], atomics=['_new_thread_context_flag'],
+                pre_rules=[(r'_spinlock\.lock\(\)', 'SPIN_lock(self)', '?'), (r'_spinlock\.unlock\(\)', 'SPIN_unlock(self)', '?'), (r'_thread_contexts\.push_back\(thread_context\)', 'LIST_push_back(self, thread_context)', 1)],
+                contract=r'''
+__CPROVER_requires(__CPROVER_is_fresh(self, sizeof(*self)) && !g_in_list && !g_flag_stored && !g_locked && OG_INV)
+__CPROVER_assigns(g_in_list, g_flag, g_in_cache, g_flag_stored, g_cleared, g_reloaded, g_locked)
+__CPROVER_ensures(g_in_list && g_flag_stored && OG_INV) /*@ C03 "after registration the new thread's context is in the registry and either already in the backend's cache or announced by the flag" */
+''')],
+    harness='  TCMr* m; TCptr* t; TCM_register_thread_context(m, t);',
+    dropped=['shared_ptr copy', 'Spinlock internals (unit SP.lock)'], trusted=['sequentially consistent interleavings; the backend\'s steps keep the invariant (unit BW.update_cache)'],
+    assumes=['__CPROVER_assume inside the rely macro: the other thread leaves the hand-off invariant intact (that is what its own unit proves)'], allow_assume=True, min_obligations=5)
+
+UPD_PRELUDE = OG + r'''
+typedef struct TCMu { int d; } TCMu; typedef struct BWu { TCMu* _thread_context_manager_p; } BWu;
+/* rely: a registering thread may push c* and/or raise the flag at any time, in ITS proved order (push, then flag), keeping OG_INV */
+#define RELY_REGISTRAR() do { if (nondet_bool()) { if (!g_in_list) { g_in_list = nondet_bool(); } if (g_in_list && !g_flag_stored && nondet_bool()) { g_flag = true; g_flag_stored = true; } __CPROVER_assume(OG_INV); } } while (0)
+static inline bool FLAG_load(TCMu* s, int mo) { RELY_REGISTRAR(); return g_flag; }
+static inline void FLAG_store(TCMu* s, bool v, int mo) { RELY_REGISTRAR(); g_flag = v; if (!v) { g_cleared = true; } __CPROVER_assert(OG_INV, "C03: hand-off invariant after the backend cleared the flag"); }
+#define ATOMIC_LOAD__new_thread_context_flag(s, mo) FLAG_load(s, mo)
+#define ATOMIC_STORE__new_thread_context_flag(s, v, mo) FLAG_store(s, v, mo)
+size_t g_cache_clears;
+static inline void CACHE_clear(BWu* s) { g_cache_clears++; }
+/* for_each_thread_context (takes the registry lock): the cache becomes a snapshot of the registry */
+static inline void RELOAD_UNDER_LOCK(BWu* s) { RELY_REGISTRAR(); g_in_cache = g_in_list; g_reloaded = true; __CPROVER_assert(OG_INV, "C03: hand-off invariant after the reload"); }
+'''
+update_cache = dict(
+    name='BW.update_cache', primary='C03', props={'C03'}, kind='S',
+    desc='ThreadContextManager::new_thread_context_flag + BackendWorker::_update_active_thread_contexts_cache under interference of registering threads: clear the flag, THEN reload - a context registered at any moment ends up in the cache or leaves the flag raised',
+    structs=[], prelude=UPD_PRELUDE, enforce='BW__update_active_thread_contexts_cache', replace=[],
+    funcs=[dict(src=dict(header=H, cls='ThreadContextManager', name='new_thread_context_flag'), src_params=[], cfun='TCM_new_thread_context_flag', sig='bool TCM_new_thread_context_flag(TCMu* self)',
+                member_fields=[], atomics=['_new_thread_context_flag']),
+           dict(src=dict(header='quill/backend/BackendWorker.h', cls='BackendWorker', name='_update_active_thread_contexts_cache'), src_params=[], cfun='BW__update_active_thread_contexts_cache',
+                sig='void BW__update_active_thread_contexts_cache(BWu* self)', cls_c='BW', member_fields=[],
+                pre_rules=[(r'_thread_context_manager\.new_thread_context_flag\(\)', 'TCM_new_thread_context_flag(self->_thread_context_manager_p)', 1),
+                           (r'_active_thread_contexts_cache\.clear\(\)', 'CACHE_clear(self)', '?'),
+                           (r'_thread_context_manager\.for_each_thread_context\s*\(\s*\[this\]\(ThreadContext\* thread_context\).*?\}\s*\)\s*;', 'RELOAD_UNDER_LOCK(self);', '?')],
+                contract=r'''
+__CPROVER_requires(__CPROVER_is_fresh(self, sizeof(*self)) && __CPROVER_is_fresh(self->_thread_context_manager_p, sizeof(TCMu)) && !g_cleared && !g_reloaded && OG_INV && (g_flag_stored ==> g_in_list))
+__CPROVER_assigns(g_in_list, g_flag, g_in_cache, g_flag_stored, g_cleared, g_reloaded, g_cache_clears)
+__CPROVER_ensures(OG_INV && !RELOADING) /*@ C03 "after the update a registered thread's context is in the backend's cache unless its flag is (still or again) raised: no thread is ever left unread" */
+''')],
+    harness='  BWu* b; BW__update_active_thread_contexts_cache(b);',
+    dropped=['the lazy TransitEventBuffer creation and the cache push_back inside the for_each lambda (the cache becomes a snapshot of the registry)', '__builtin_expect'],
+    trusted=['sequentially consistent interleavings; the registering thread\'s steps keep the invariant and come in its proved order (unit TCM.register)'],
+    assumes=['__CPROVER_assume inside the rely macro: the other thread leaves the hand-off invariant intact'], allow_assume=True, min_obligations=5)
+UNITS += [register, update_cache]
